@@ -323,8 +323,13 @@ func (s *PrefixFS) Readlink(name string) (string, error) {
 	}
 	cleanedPath := filepath.Clean(linkedPath)
 
-	prefixlessPath := strings.TrimPrefix(cleanedPath, s.prefix)
-	return prefixlessPath, nil
+	rel, inside := relInside(s.prefix, cleanedPath)
+	if !inside {
+		// relative link or a link that does not point into the prefix
+		return cleanedPath, nil
+	}
+	// the prefix is seen as the root directory
+	return filepath.Join(separator, rel), nil
 }
 
 func (s *PrefixFS) Lchown(name string, uid, gid int) error {
